@@ -207,9 +207,11 @@ def _user(w, sc):
             s.emit('InterruptPosted', how=how)
             s.interrupt('user', KeyboardInterrupt())
 
+    canceller = None
     if cancel and cancel['how'] in ('future', 'shutdown', 'kbi-result',
                                     'kbi-shutdown'):
-        s.spawn('canceller', do_cancel, gate_step=cancel.get('gate', 0))
+        canceller = s.spawn('canceller', do_cancel,
+                            gate_step=cancel.get('gate', 0))
 
     def body():
         for x in range(n):
@@ -252,11 +254,17 @@ def _user(w, sc):
                 finally:
                     (w._snapshot_hook(s), s.emit('ShutdownEnd', by='user'))
             else:
-                s.emit('ShutdownBegin', by='user')
-                try:
-                    w.manager.shutdown()
-                finally:
-                    (w._snapshot_hook(s), s.emit('ShutdownEnd', by='user'))
+                if cancel and cancel['how'] == 'shutdown' and canceller is not None:
+                    # the canceller's shutdown(cancel=True) IS the user's
+                    # shutdown call: do not issue a second, concurrent one
+                    s.block(lambda: canceller.finished, 'canceller-done',
+                            idle_ok=True)
+                else:
+                    s.emit('ShutdownBegin', by='user')
+                    try:
+                        w.manager.shutdown()
+                    finally:
+                        (w._snapshot_hook(s), s.emit('ShutdownEnd', by='user'))
     except (ValueError, KeyboardInterrupt) as e:
         s.emit('UserExit', exc=type(e).__name__)
     # results after shutdown (never block once shutdown returned, unless buggy)
